@@ -9,6 +9,7 @@ import (
 	"os"
 	"os/exec"
 	"path/filepath"
+	"sort"
 	"strconv"
 	"strings"
 	"time"
@@ -213,6 +214,30 @@ func parseInspect(out []byte) Val {
 func runCliImpl(c *Ctx, cmd string, flags VL, files VL) Val {
 	dir := cliDir(c)
 	defer os.RemoveAll(dir)
+	// a trailing (tpre b..) = content already sitting at the command's OUTPUT path
+	var pre []byte
+	hasPre := false
+	if n := len(files); n > 0 {
+		if l, ok := files[n-1].(VL); ok && len(l) == 2 {
+			if t, ok := l[0].(VT); ok && t == "pre" {
+				pre, hasPre = []byte(l[1].(VB)), true
+				files = files[:n-1]
+			}
+		}
+	}
+	if hasPre {
+		outName := map[string]string{"index": "out.car", "concat": "out.car", "indexcreate": "out.idx", "detach": "out.idx",
+			"getblock": "out.bin", "listfile": "out.txt"}[cmd]
+		if outName != "" {
+			if err := os.WriteFile(filepath.Join(dir, outName), pre, 0o644); err != nil {
+				panic(err)
+			}
+			c.Count("preexisting-output:" + cmd)
+		}
+	}
+	if cmd == "outindep" {
+		return runOutIndep(c, dir, flags)
+	}
 	names := make([]string, len(files))
 	for i, f := range files {
 		names[i] = fmt.Sprintf("in%d.car", i)
@@ -303,6 +328,10 @@ func runCliImpl(c *Ctx, cmd string, flags VL, files VL) Val {
 	case "list":
 		r := carRun(c, dir, "list", names[0])
 		return VL{VT(r.status), parseCidLines(r.stdout)}
+	case "listfile":
+		r := carRun(c, dir, "list", names[0], "out.txt")
+		b, _ := os.ReadFile(filepath.Join(dir, "out.txt"))
+		return VL{VT(r.status), parseCidLines(b)}
 	case "root":
 		r := carRun(c, dir, "root", names[0])
 		l := parseCidLines(r.stdout)
@@ -484,4 +513,110 @@ func emitCli(c *Ctx, cmd string, flags VL, files VL, expect VL, nontrivial bool)
 	obs := runCliImpl(c, cmd, flags, files)
 	c.Emit("cli", VL{VT(cmd), flags, files, tab, hdrs, expect}, obs, nontrivial)
 	return obs
+}
+
+// ---- commands outside the model (create, extract, debug, compile): the result must not depend on
+// what was at the output path before.  flags = (tname payload...): the command is run in two fresh
+// directories, once with the output path absent and once with a longer file of a recognisable
+// pattern already there; observation 1 iff exit status and output bytes are identical.
+func runOutIndep(c *Ctx, dir string, flags VL) Val {
+	name := string(flags[0].(VT))
+	pattern := bytes.Repeat([]byte{0xA5, 0x5A, 'P', 'R', 'E'}, 4000)
+	run := func(sub string, withPre bool) (string, []byte) {
+		d := filepath.Join(dir, sub)
+		os.MkdirAll(d, 0o755)
+		switch name {
+		case "create": // (tcreate version ((name data) ...))
+			var args []string
+			args = append(args, "create", "-f", "out.car", "--version", strconv.FormatUint(vnum(flags[1]), 10))
+			for _, e := range flags[2].(VL) {
+				n := string(e.(VL)[0].(VB))
+				os.WriteFile(filepath.Join(d, n), e.(VL)[1].(VB), 0o644)
+				args = append(args, n)
+			}
+			if withPre {
+				os.WriteFile(filepath.Join(d, "out.car"), pattern, 0o644)
+			}
+			r := carRun(c, d, args...)
+			b, _ := os.ReadFile(filepath.Join(d, "out.car"))
+			return r.status, b
+		case "extract": // (textract ((name data) ...)): create, then extract into a directory holding longer files
+			var args []string
+			args = append(args, "create", "-f", "in.car")
+			os.MkdirAll(filepath.Join(d, "src"), 0o755)
+			for _, e := range flags[1].(VL) {
+				n := string(e.(VL)[0].(VB))
+				os.WriteFile(filepath.Join(d, "src", n), e.(VL)[1].(VB), 0o644)
+				args = append(args, filepath.Join("src", n))
+			}
+			carRun(c, d, args...)
+			os.MkdirAll(filepath.Join(d, "outdir"), 0o755)
+			if withPre {
+				for _, e := range flags[1].(VL) {
+					os.WriteFile(filepath.Join(d, "outdir", string(e.(VL)[0].(VB))), pattern, 0o644)
+				}
+			}
+			r := carRun(c, d, "extract", "-f", "in.car", "outdir")
+			var all []byte
+			for _, e := range flags[1].(VL) {
+				b, _ := os.ReadFile(filepath.Join(d, "outdir", string(e.(VL)[0].(VB))))
+				all = append(append(all, b...), 0)
+			}
+			return r.status, all
+		case "debug", "compile": // (tdebug b<car>) / (tcompile b<car>): debug to a patch, compile it back
+			os.WriteFile(filepath.Join(d, "in.car"), flags[1].(VB), 0o644)
+			if name == "debug" {
+				if withPre {
+					os.WriteFile(filepath.Join(d, "out.patch"), pattern, 0o644)
+				}
+				r := carRun(c, d, "debug", "-o", "out.patch", "in.car")
+				b, _ := os.ReadFile(filepath.Join(d, "out.patch"))
+				return r.status, b
+			}
+			carRun(c, d, "debug", "-o", "out.patch", "in.car")
+			if withPre {
+				os.WriteFile(filepath.Join(d, "out.car"), pattern, 0o644)
+			}
+			r := carRun(c, d, "compile", "-o", "out.car", "out.patch")
+			b, _ := os.ReadFile(filepath.Join(d, "out.car"))
+			return r.status, b
+		}
+		return "unknown", nil
+	}
+	s1, b1 := run("absent", false)
+	s2, b2 := run("pre", true)
+	c.Count("outindep:" + name)
+	same := bytes.Equal(b1, b2)
+	if name == "compile" {
+		// car compile emits its blocks in Go map order: compare as sorted block lists (and lengths)
+		same = len(b1) == len(b2) && sortedBlocks(b1) != "" && sortedBlocks(b1) == sortedBlocks(b2)
+	}
+	switch {
+	case s1 == "ok" && s2 == "ok" && same:
+		return VL{VN(1)}
+	case s1 == "ok" && s2 == "err" && bytes.Equal(b2, pattern):
+		return VL{VN(2)} // refused: exit status 1 and the existing file untouched
+	}
+	return VL{VN(0), VT(s1), VT(s2), VN(uint64(len(b1))), VN(uint64(len(b2)))}
+}
+
+func sortedBlocks(file []byte) string {
+	br, err := carv2.NewBlockReader(bytes.NewReader(file))
+	if err != nil {
+		return ""
+	}
+	var keys []string
+	for {
+		b, err := br.Next()
+		if err != nil {
+			break
+		}
+		keys = append(keys, string(b.Cid().Bytes())+"|"+string(b.RawData()))
+	}
+	sort.Strings(keys)
+	out := fmt.Sprint(br.Roots)
+	for _, k := range keys {
+		out += "\x00" + k
+	}
+	return out
 }
